@@ -163,8 +163,9 @@ def h_network_swap(case):
         nsteps = 60 if kind_ != "gillespie" else 400
         t_max_si = nsteps * dt
         if kind_ == "gillespie":      # one event per iteration: bound the run by events (macroscopic counts), not by time
-            _, mag2 = ref.rate_law(desc2, state, None)      # the second run has the rotated network's propensities
-            t_max_si = min(t_max_si, 2000.0 / (max(sum(mag), sum(mag2)) + 1e-300))
+            # total propensity of all channels (self-loop edges fire too), for the network of either run
+            a0 = max(sum(ref.propensity(c_, state) for c_ in ref.channels(d_, [0] * len(state))) for d_ in (desc, desc2))
+            t_max_si = min(t_max_si, 2000.0 / (a0 + 1e-300))
         script = simhelp.make_script(system, r, dt_si=dt, t_sample_si=[0.0], policy="on_iteration", t_max_si=t_max_si,
                                      usys=(gen.mild_sys(r)[0], gen.mild_sys(r)[1], "molecule"), isp="none", seed=r.randrange(2 ** 31))
         eng = engines.get(kind_)
